@@ -367,77 +367,7 @@ func checkC13(w *World, r *Report) {
 	}
 
 	// ---- C13.validated ----
-	pkeys := map[string]string{}
-	for _, m := range customModules {
-		if k, ok := w.paramsKeyOf(m); ok {
-			pkeys[m] = k
-		} else {
-			r.Unk("infra.anchor", "x/"+m+"/types.ParamsKey", "", "cannot evaluate ParamsKey")
-		}
-	}
-	for _, f := range w.ProdFuncs() {
-		m := moduleOfFunc(f)
-		if m == "" {
-			continue
-		}
-		for _, s := range cg.Sites[f] {
-			if cg.Atom(s) != StoreSet {
-				continue
-			}
-			loc := cg.StoreLocOf(s)
-			if !loc.Resolved {
-				// unresolved store locations are reported by C12.prefix; here only the params key matters
-				continue
-			}
-			if loc.Prefix != pkeys[m] {
-				continue
-			}
-			construct := funcName(f) + " : store.Set(ParamsKey)"
-			args := s.Args()
-			if len(args) < 2 {
-				r.Unk("C13.validated", construct, w.Pos(s.Instr.Pos()), "unexpected Set signature")
-				continue
-			}
-			// the value: result of a Marshal call on &p
-			var marsh *ssa.Call
-			o := w.Tracer().Origins(args[1])
-			for c := range o.Calls {
-				n := callName(c.Common())
-				if hasSuffixAny(n, ".MustMarshal", ".Marshal", ".MustMarshalJSON", ".MarshalJSON") {
-					marsh = c
-				}
-			}
-			if marsh == nil {
-				r.Bad("C13.validated", construct, w.Pos(s.Instr.Pos()), "the bytes stored under ParamsKey are not the result of marshalling a Params value: "+o.String())
-				continue
-			}
-			root := valueRoot(marsh.Common().Args[len(marsh.Common().Args)-1])
-			// Validate calls on the same root
-			var vals []ssa.Value
-			for _, s2 := range cg.Sites[f] {
-				c2, ok := s2.Instr.(*ssa.Call)
-				if !ok || s2.Method != "Validate" {
-					continue
-				}
-				recv := s2.Recv()
-				if recv == nil {
-					continue
-				}
-				if valueRoot(recv) == root {
-					vals = append(vals, c2)
-				}
-			}
-			if len(vals) == 0 {
-				r.Bad("C13.validated", construct, w.Pos(s.Instr.Pos()), "no Validate() call on the value that is marshalled and stored")
-				continue
-			}
-			if OnSuccessEdge(f, s.Instr, vals...) {
-				r.OK("C13.validated", construct, w.Pos(s.Instr.Pos()), "reached only through the nil edge of Validate() on the stored value")
-			} else {
-				r.Bad("C13.validated", construct, w.Pos(s.Instr.Pos()), "the store write can be reached without Validate() having returned nil")
-			}
-		}
-	}
+	pkeys := checkValidatedParamWrites(w, r, "C13.validated", func(*ssa.Function) bool { return true })
 
 	// ---- C13.current ----
 	setParams := w.Func("x/cfeminter/keeper.Keeper.SetParams")
@@ -510,4 +440,83 @@ func checkC13(w *World, r *Report) {
 			}
 		}
 	}
+}
+
+// checkValidatedParamWrites: every store write to a module's ParamsKey (in the functions selected by keep)
+// is reached only through the nil edge of Validate() on the value that is marshalled. Returns the params keys.
+func checkValidatedParamWrites(w *World, r *Report, rule string, keep func(*ssa.Function) bool) map[string]string {
+	cg := w.CG()
+	pkeys := map[string]string{}
+	for _, m := range customModules {
+		if k, ok := w.paramsKeyOf(m); ok {
+			pkeys[m] = k
+		} else {
+			r.Unk("infra.anchor", "x/"+m+"/types.ParamsKey", "", "cannot evaluate ParamsKey")
+		}
+	}
+	for _, f := range w.ProdFuncs() {
+		m := moduleOfFunc(f)
+		if m == "" || !keep(f) {
+			continue
+		}
+		for _, s := range cg.Sites[f] {
+			if cg.Atom(s) != StoreSet {
+				continue
+			}
+			loc := cg.StoreLocOf(s)
+			if !loc.Resolved {
+				// unresolved store locations are reported by C12.prefix; here only the params key matters
+				continue
+			}
+			if loc.Prefix != pkeys[m] {
+				continue
+			}
+			construct := funcName(f) + " : store.Set(ParamsKey)"
+			args := s.Args()
+			if len(args) < 2 {
+				r.Unk(rule, construct, w.Pos(s.Instr.Pos()), "unexpected Set signature")
+				continue
+			}
+			// the value: result of a Marshal call on &p
+			var marsh *ssa.Call
+			o := w.Tracer().Origins(args[1])
+			for c := range o.Calls {
+				n := callName(c.Common())
+				if hasSuffixAny(n, ".MustMarshal", ".Marshal", ".MustMarshalJSON", ".MarshalJSON") {
+					marsh = c
+				}
+			}
+			if marsh == nil {
+				r.Bad(rule, construct, w.Pos(s.Instr.Pos()), "the bytes stored under ParamsKey are not the result of marshalling a Params value: "+o.String())
+				continue
+			}
+			root := valueRoot(marsh.Common().Args[len(marsh.Common().Args)-1])
+			// Validate calls on the same root
+			var vals []ssa.Value
+			for _, s2 := range cg.Sites[f] {
+				c2, ok := s2.Instr.(*ssa.Call)
+				if !ok || s2.Method != "Validate" {
+					continue
+				}
+				recv := s2.Recv()
+				if recv == nil {
+					continue
+				}
+				if valueRoot(recv) == root {
+					vals = append(vals, c2)
+				}
+			}
+			if len(vals) == 0 {
+				r.Bad(rule, construct, w.Pos(s.Instr.Pos()), "no Validate() call on the value that is marshalled and stored")
+				continue
+			}
+			if OnSuccessEdge(f, s.Instr, vals...) {
+				r.OK(rule, construct, w.Pos(s.Instr.Pos()), "reached only through the nil edge of Validate() on the stored value")
+			} else {
+				r.Bad(rule, construct, w.Pos(s.Instr.Pos()), "the store write can be reached without Validate() having returned nil")
+			}
+		}
+	}
+
+	return pkeys
 }
